@@ -126,7 +126,7 @@ def schedules(R: Run):
 
     procs = max(1, min(14, (os.cpu_count() or 2) - 2))
     CW = frozenset(S.COARSE | {"wr"})
-    NOGC = frozenset(S.COARSE | {"rd", "wr"})
+    NOGC = frozenset(S.COARSE | {"rd", "wr", "sget"})  # everything but get_client(), which is thread-local
     C2 = frozenset({"acq", "create", "upload", "complete", "vget"})
 
     def exhaustive(variant, kinds, workers, coarse, tag, gate=False, oracle=True):
@@ -144,8 +144,10 @@ def schedules(R: Run):
             check_run(R, variant, kinds, workers, gate, o, "random-fine", oracle)
 
     # ---- in-process variant: every interleaving of two threads at the finest granularity
-    exhaustive("local", ["w1", "w2"], None, None, "fine")
-    exhaustive("local", ["w1", "f"], None, None, "fine")  # a write racing with a finalise
+    # (the process-wide lock does not exist at the start: its lazy creation is part of the race)
+    exhaustive("local", ["w1", "w2"], None, NOGC if R.quick else None, "nogc" if R.quick else "fine")
+    # a write racing with a finalise
+    exhaustive("local", ["w1", "f"], None, NOGC if R.quick else None, "nogc" if R.quick else "fine")
     exhaustive("local", ["w1", "w2", "f"], None, NOGC, "nogc-gated", gate=True)  # two writes, then the finalise
     exhaustive("local", ["w3", "w1", "w2"], None, C2 if R.quick else CW, "coarse")
     exhaustive("local", ["w1", "w2", "f"], None, C2 if R.quick else CW, "coarse")  # racing finalise
